@@ -104,7 +104,7 @@ def render (t : Table) : Nat → Option Nat → E → List Tok
       else .op o :: render t (t.n+1) follow a
 
 def parse (t : Table) (ts : List Tok) : R :=
-  match entry t (ts.length * (t.n + 4) + 10) 0 ts with
+  match entry t ((ts.length + 1) * (t.n + 3)) 0 ts with
   | .ok e [] => .ok e []
   | .ok _ _ => .err
   | r => r
